@@ -1,6 +1,7 @@
 import PdfModel.Lemmas.StorageRun
 import PdfModel.Lemmas.StoragePrefix
 import PdfModel.Lemmas.StorageLoad
+import PdfModel.Lemmas.HistBytes
 
 /-!
 # C09 — a reload sees exactly the saved modifications and nothing else changes
@@ -168,7 +169,7 @@ theorem failed_save_is_clean (P : Params V) (d0 : Doc V) (chain0) (hb : BaseOK d
 
 /-- **C09, "several saves in a row"**: from a savable document any number of saves in a row all
     succeed, as long as the table stays within the reader's limit (each save allocates at most two numbers). -/
-theorem saves_in_a_row (P : Params V) (hx : P.ok P.xrefVal = true) (d0 : Doc V) (chain0) (hb : BaseOK d0 chain0) :
+theorem saves_in_a_row (P : Params V) (hx : ∀ i, P.ok (P.xrefVal i) = true) (d0 : Doc V) (chain0) (hb : BaseOK d0 chain0) :
     ∀ (Ls : List Layout), (∀ L ∈ Ls, L.Pos) → ∀ (d : Doc V), Inv d0 d → Savable P d →
       d.st.refs.length + 2 * Ls.length ≤ MAX_ID →
       ∀ r ∈ (run P d (Ls.map Op.save)).2, ∃ i, r = Res.saved i := by
@@ -198,8 +199,8 @@ def tiny : Doc Nat :=
      [⟨50, [⟨0, [.free 0 65535, .raw 10 0, .raw 20 0, .stream 4 0, .raw 30 0]⟩], 6, none, (1, 0), none⟩],
      80, 0, 50⟩, ⟨(1, 0), none, none⟩⟩
 
-def PN : Params Nat := ⟨fun v => v != 13, 0⟩
-def L5 : Layout := ⟨fun _ => 5, 7, 3⟩
+def PN : Params Nat := ⟨fun v => v != 13, fun _ => 0, fun _ _ _ => 0⟩
+def L5 : Layout := ⟨fun _ => 5, fun _ => 7, fun _ => 3⟩
 
 /-- `tiny` is what loading its own bytes gives -/
 example : (match reload tiny.st true with
@@ -315,7 +316,7 @@ example : HistOK sampleOps := by
   intro op hop
   simp only [sampleOps, List.mem_cons, List.mem_nil_iff, or_false] at hop
   rcases hop with rfl | rfl | rfl | rfl | rfl | rfl | rfl | rfl | rfl | rfl <;>
-    first | trivial | exact ⟨fun _ => (by show 0 < 5; decide), (by show 0 < 7; decide)⟩
+    first | trivial | exact ⟨fun _ => (by show 0 < 5; decide), (by intro i; show 0 < 7; decide)⟩
 
 /-- the history runs as described: the first save fails, the other two succeed, and reloading the last
     revision reads every written reference at its last value and the untouched ones as before -/
@@ -327,3 +328,143 @@ example : (match reload (run PN tinyFixed sampleOps).1.st false with
     | _ => []) = [.val 100, .val 21, .val 31, .val 400, .val 41, .val 42] := by decide
 
 end Storage
+
+/-!
+## C09 at byte level (L2): the abstraction discharged
+
+`SaveBytes.saveB` is `save` with every record rendered by the writer model (`Model/Serialize.lean`) — the
+correspondence stream `c09.bytes` compares its output with the bytes `Storage::save` appends, byte for byte.
+`OpenBytes.openB` / `resolveB` are the byte-level open path (`locate_start_offset`, `locate_xref_offset`,
+`read_xref_and_trailer_at` with the cross-reference stream reader `Xref.parseSections`, the `/Prev` walk and merge of
+`Offsets.loadTable`) and `Storage::resolve_ref` (`parse_indirect_object` at `start + offset`, object streams) — the
+stream `c09.open` compares the table they build with `read_xref_table_and_trailer`.
+
+The theorems below say about the *bytes* what `reload_sees_saved` says about the abstract backend.  The base file is
+given as bytes `b0.bytes` that represent the loaded document (`RepBytes.Rep`: every record and section of the
+abstract backend is what the byte-level parsers read at its offset, whatever is appended behind) — the
+"well-formed table" hypothesis; for a file built from scratch it holds trivially (Props/C10).
+
+Explicit hypotheses (third-party or out of model):
+* `env.parseReal` (`f32::from_str`) and `fmt` (`f32` `Display`) only through `Serialisable` (a real is written as a
+  token that reads back as the same real), `env.decrypt = none`;
+* `NoFilter dec`: a stream dictionary without `/Filter` is decoded to its raw bytes (the filter chain — Flate, … — is
+  never entered for what `save` writes);
+* sizes: the output stays below 2³¹ bytes (`fileMax`, the range of the lexer theorems), parser fuel `pfuel` at least
+  three times the file length (the driver's `3·len + 64`);
+* `GoodHist`: the values written are within the limits of `C04.parse_serialize_indirect` / `parse_serialize_stream`
+  (`OKVal`), and no save of the history failed *after* appending its revision (`Trailer::from_dict` failing because
+  the catalog no longer resolves: the real backend keeps those bytes, `saveB` does not model that).
+-/
+
+namespace C09Bytes
+open Storage PdfLex Xref OpenBytes SaveBytes RepBytes
+
+variable {R : Type}
+
+/-- **C09 at byte level, the save itself.** A successful `saveB` appends to the file exactly: the frames
+    `id gen obj … endobj` of the pending values in number order, each at the offset its cross-reference row names;
+    the cross-reference stream object, at the offset its own row and `startxref` name; `startxref`, the offset,
+    `%%EOF`. The length of the new file is the length the abstract model computes from its `Layout` — the measured
+    record lengths of the abstract correspondence are a consequence of the values. -/
+theorem save_bytes_layout (fmt : R → List UInt8) (pr : List UInt8 → Option R) (d0 : Doc (Prim R)) (chain0)
+    (b b' : BDoc R) (i : SaveInfo) (hb : BaseOK d0 chain0) (hi : Inv d0 b.doc) (hlen : b.bytes.length = b.doc.st.len)
+    (h : saveB fmt b = (b', .ok i)) (hbd : Bounds b.doc.tr (prep b.doc).infoRef i) : SavedBytes fmt b b' i :=
+  saveB_spec fmt pr d0 chain0 b b' i hb hi hlen h hbd
+
+/-- **C09 at byte level, reload.** After any history of `create / update / promise / fulfil / get / resolve /
+    save` at byte level (saves that fail before writing included) on a base file given as bytes, a successful save
+    produces bytes which the byte-level open path opens — header found at the same `start`, table rebuilt from the
+    new cross-reference stream and the `/Prev` chain — and in which the byte-level resolver returns
+    * for every written reference the last value written (streams: the dictionary written and a `file_range` that
+      covers exactly the data written);
+    * for every untouched number of the base table the value it had in the base document. -/
+theorem reload_sees_saved_bytes (fmt : R → List UInt8) (env : Env R) (hd : env.decrypt = none) (pfuel : Nat)
+    (dec : Dict R → List UInt8 → Out (List UInt8)) (hdec : NoFilter dec) (b0 : BDoc R) (chain0)
+    (hb : BaseOK b0.doc chain0) (hv : BaseVals fmt env.parseReal b0.doc)
+    (hrep : Rep (parsers env pfuel dec) b0.bytes b0.doc.st)
+    (ops : List (OpB R)) (hgood : GoodHist fmt env.parseReal b0 ops) (b' : BDoc R) (i : SaveInfo)
+    (hs : saveB fmt (runB fmt b0 ops).1 = (b', .ok i))
+    (hsmall : b'.bytes.length ≤ fileMax) (hpf : 3 * b'.bytes.length ≤ pfuel)
+    (fuel : Nat) (hfuel : b'.doc.st.secs.length + 1 ≤ fuel) (rfuel : Nat) :
+    ∃ t T, openB env pfuel dec fuel b'.bytes = .ok (b0.doc.st.start, t, T) ∧
+      dictGet T SaveBytes.kRoot = some (.ref b0.doc.tr.root.1 b0.doc.tr.root.2) ∧
+      (∀ id v, specRun AMap.empty (liftOps fmt b0 ops) (runB fmt b0 ops).2 id = some v →
+        ∃ o, resolveB env pfuel dec (rfuel + 2) b'.bytes b0.doc.st.start t id = .ok o ∧ Denotes b'.bytes o v) ∧
+      (∀ id, id < b0.doc.st.refs.length → specRun AMap.empty (liftOps fmt b0 ops) (runB fmt b0 ops).2 id = none →
+        (∀ sid idx, b0.doc.st.refs[id]? = some (.stream sid idx) →
+          specRun AMap.empty (liftOps fmt b0 ops) (runB fmt b0 ops).2 sid = none) →
+        ∀ v, resolve b0.doc.st id = .val v →
+          ∃ o, resolveB env pfuel dec (rfuel + 2) b'.bytes b0.doc.st.start t id = .ok o ∧ Denotes b'.bytes o v) := by
+  -- the invariant after the history, and after the final save
+  have hmono : (runB fmt b0 ops).1.bytes.length ≤ b'.bytes.length := by
+    rcases (saveB_cases fmt _ _ _ hs).2.2 with ⟨_, _, hbts⟩ | ⟨hno, _⟩
+    · rw [hbts]; simp
+    · exact absurd rfl (hno i)
+  have h1 := hinv_runB fmt env hd pfuel dec hdec b0 chain0 hb hv ops b0 (hinv_base fmt env pfuel dec b0 chain0 hb hrep)
+    hgood (by omega) (by omega)
+  have hstep : stepB fmt (runB fmt b0 ops).1 .save = (b', .saved i) := by simp [stepB, hs]
+  have h2 := hinv_stepB fmt env hd pfuel dec hdec b0 (runB fmt b0 ops).1 chain0 hb hv h1 .save
+    (by intro b'' o hs' hno; rw [hs] at hs'; cases hs'; exact absurd rfl (hno i))
+    (by rw [hstep]; exact hsmall) (by rw [hstep]; exact hpf)
+  rw [hstep] at h2
+  -- the abstract theorem on the lifted history
+  obtain ⟨r1, r2, r3⟩ := runB_run fmt ops b0
+  obtain ⟨s1, _, _⟩ := saveB_cases fmt _ _ _ hs
+  rw [r3, r1] at s1
+  obtain ⟨dr, hrl, htr, hw, ho⟩ := reload_sees_saved (params fmt b0.ids) b0.doc chain0 hb (liftOps fmt b0 ops)
+    (liftOps_ok fmt ops b0) (layoutOf fmt (runB fmt b0 ops).1) (layoutOf_pos fmt _) b'.doc i s1 false
+  rw [← r2] at hw ho
+  -- the bridge
+  obtain ⟨T, hopen, hroot⟩ := open_of_rep (parsers env pfuel dec) b'.bytes b'.doc.st h2.rep false dr hrl fuel hfuel
+  obtain ⟨_, _, _, _, _, _, _, hdr, _⟩ := reload_ok_spec b'.doc.st false dr hrl
+  have hst : b'.doc.st.start = b0.doc.st.start := h2.inv.start_eq
+  rw [hst] at hopen
+  rw [htr] at hroot
+  refine ⟨dr.st.refs, T, hopen, hroot, ?_, ?_⟩
+  · intro id v hsp
+    have := hw id v hsp
+    rw [hdr] at this
+    have := resolve_of_rep (parsers env pfuel dec) b'.bytes b'.doc.st h2.rep dr.st.refs false id v this rfuel
+    rw [hst] at this; exact this
+  · intro id hid hsp hcont v hval
+    have := ho id hid hsp hcont
+    rw [hval] at this
+    have := sameRd_val _ _ this
+    rw [hdr] at this
+    have := resolve_of_rep (parsers env pfuel dec) b'.bytes b'.doc.st h2.rep dr.st.refs false id v this rfuel
+    rw [hst] at this; exact this
+
+/-- **C09 at byte level, reload, in terms of the state.** Whatever state a byte-level history has reached
+    (`HInv`: the bytes represent it), a successful save produces bytes which the byte-level open path opens and in
+    which the byte-level resolver returns, for every number with a pending value (the info dictionary of the
+    trailer included), that value. -/
+theorem reload_sees_pending_bytes (fmt : R → List UInt8) (env : Env R) (hd : env.decrypt = none) (pfuel : Nat)
+    (dec : Dict R → List UInt8 → Out (List UInt8)) (hdec : NoFilter dec) (b0 b : BDoc R) (chain0)
+    (hb : BaseOK b0.doc chain0) (hv : BaseVals fmt env.parseReal b0.doc) (h1 : HInv fmt env pfuel dec b0 b)
+    (b' : BDoc R) (i : SaveInfo) (hs : saveB fmt b = (b', .ok i))
+    (hsmall : b'.bytes.length ≤ fileMax) (hpf : 3 * b'.bytes.length ≤ pfuel)
+    (fuel : Nat) (hfuel : b'.doc.st.secs.length + 1 ≤ fuel) (rfuel : Nat) :
+    ∃ t T, openB env pfuel dec fuel b'.bytes = .ok (b0.doc.st.start, t, T) ∧ t.length = i.size + 1 ∧
+      dictGet T SaveBytes.kRoot = some (.ref b0.doc.tr.root.1 b0.doc.tr.root.2) ∧
+      (∀ id v g, chLookup (prep b.doc).st2.changes id = some (v, g) →
+        ∃ o, resolveB env pfuel dec (rfuel + 2) b'.bytes b0.doc.st.start t id = .ok o ∧ Denotes b'.bytes o v) := by
+  have hstep : stepB fmt b .save = (b', .saved i) := by simp [stepB, hs]
+  have h2 := hinv_stepB fmt env hd pfuel dec hdec b0 b chain0 hb hv h1 .save
+    (by intro b'' o hs' hno; rw [hs] at hs'; cases hs'; exact absurd rfl (hno i))
+    (by rw [hstep]; exact hsmall) (by rw [hstep]; exact hpf)
+  rw [hstep] at h2
+  obtain ⟨s1, _, _⟩ := saveB_cases fmt _ _ _ hs
+  obtain ⟨t, hrl, facts⟩ := reload_after_save _ _ (layoutOf_pos fmt b) b0.doc b.doc b'.doc chain0 i hb h1.inv s1 false
+  obtain ⟨T, hopen, hroot⟩ := open_of_rep (parsers env pfuel dec) b'.bytes b'.doc.st h2.rep false _ hrl fuel hfuel
+  have hst : b'.doc.st.start = b0.doc.st.start := h2.inv.start_eq
+  rw [hst] at hopen
+  simp only at hroot
+  rw [h1.inv.tr_eq] at hroot
+  obtain ⟨_, _, _, _, _, _, _, _, hsize, _, _⟩ := save_ok_spec _ _ _ _ _ s1
+  refine ⟨t, T, hopen, by rw [facts.len, hsize], hroot, ?_⟩
+  intro id v g hc
+  have := facts.pending id v g hc false
+  have := resolve_of_rep (parsers env pfuel dec) b'.bytes b'.doc.st h2.rep t false id v this rfuel
+  rw [hst] at this; exact this
+
+end C09Bytes
